@@ -145,6 +145,14 @@ pub(crate) fn verif_operand_len(byte: u8) -> Option<usize> {
     Some(OpCode::from(byte).operands().iter().sum())
 }
 
+/// Converts a size, position or index into an instruction operand.
+/// A program that is too large for the instruction format is rejected instead of panicking.
+fn operand<T: TryFrom<usize>>(value: usize) -> Result<T, Error> {
+    value.try_into().map_err(|_| {
+        Error::SyntaxError("het programma is te groot (te veel code, constanten, variabelen of argumenten)".to_string())
+    })
+}
+
 pub struct Bytecode {
     pub constants: Vec<Object>,
     pub instructions: Vec<u8>,
@@ -312,7 +320,7 @@ impl Compiler {
                     OpCode::SetLocal
                 };
                 self.emit_opcode(op);
-                self.emit_u16(symbol.index);
+                self.emit_u16(operand(symbol.index)?);
             }
             Stmt::Return(expr) => {
                 if self.symbols.in_global_context() {
@@ -348,7 +356,7 @@ impl Compiler {
                     )),
                 }?;
                 self.emit_opcode(OpCode::Jump);
-                self.emit_u16(pos.try_into().unwrap());
+                self.emit_u16(operand(pos)?);
             }
         }
 
@@ -383,7 +391,7 @@ impl Compiler {
         const_value: isize,
         operator: &Operator,
     ) -> Result<(), Error> {
-        let idx_constant = self.add_constant(Object::int(const_value));
+        let idx_constant = self.add_constant(Object::int(const_value))?;
         let symbol = self.symbols.resolve(varname);
         match symbol {
             Some(symbol) => {
@@ -406,7 +414,7 @@ impl Compiler {
                 };
 
                 self.emit_opcode(opcode);
-                self.emit_u16(symbol.index);
+                self.emit_u16(operand(symbol.index)?);
                 self.emit_u16(idx_constant);
             }
             None => {
@@ -427,18 +435,18 @@ impl Compiler {
             }
             Expr::Float { value } => {
                 let obj = Object::float(*value, &mut self.gc);
-                let idx = self.add_constant(obj);
+                let idx = self.add_constant(obj)?;
                 self.emit_opcode(OpCode::Const);
                 self.emit_u16(idx);
             }
             Expr::Int { value } => {
-                let idx = self.add_constant(Object::int(*value));
+                let idx = self.add_constant(Object::int(*value))?;
                 self.emit_opcode(OpCode::Const);
                 self.emit_u16(idx);
             }
             Expr::String { value } => {
                 let obj = Object::string(value.as_str(), &mut self.gc);
-                let idx = self.add_constant(obj);
+                let idx = self.add_constant(obj)?;
                 self.emit_opcode(OpCode::Const);
                 self.emit_u16(idx);
             }
@@ -452,7 +460,7 @@ impl Compiler {
                             OpCode::GetLocal
                         };
                         self.emit_opcode(opcode);
-                        self.emit_u16(symbol.index);
+                        self.emit_u16(operand(symbol.index)?);
                     }
                     None => {
                         return Err(Error::ReferenceError(format!(
@@ -506,16 +514,16 @@ impl Compiler {
                         match symbol.scope {
                             Scope::Global => {
                                 self.emit_opcode(OpCode::SetGlobal);
-                                self.emit_u16(symbol.index);
+                                self.emit_u16(operand(symbol.index)?);
                                 self.emit_opcode(OpCode::GetGlobal);
-                                self.emit_u16(symbol.index);
+                                self.emit_u16(operand(symbol.index)?);
                             }
 
                             Scope::Local => {
                                 self.emit_opcode(OpCode::SetLocal);
-                                self.emit_u16(symbol.index);
+                                self.emit_u16(operand(symbol.index)?);
                                 self.emit_opcode(OpCode::GetLocal);
-                                self.emit_u16(symbol.index);
+                                self.emit_u16(operand(symbol.index)?);
                             }
                         }
                     }
@@ -592,7 +600,7 @@ impl Compiler {
 
                 self.change_jump_operand_at(
                     pos_jump_if_false,
-                    self.instructions.len().try_into().unwrap(),
+                    operand(self.instructions.len())?,
                 );
 
                 if let Some(alternative) = alternative {
@@ -607,7 +615,7 @@ impl Compiler {
                 }
 
                 // Change operand of last JumpIfFalse opcode to where we're currently at
-                self.change_jump_operand_at(pos_jump, self.instructions.len().try_into().unwrap());
+                self.change_jump_operand_at(pos_jump, operand(self.instructions.len())?);
             }
             Expr::While { condition, body } => {
                 // TODO: Can we get rid of this now that empty block statement emit a NULL?
@@ -632,18 +640,18 @@ impl Compiler {
 
                 // emit jump instruction to loop condition
                 self.emit_opcode(OpCode::Jump);
-                self.emit_u16(pos_before_condition.try_into().unwrap());
+                self.emit_u16(operand(pos_before_condition)?);
 
                 // Update jump statement for when initial condition evaluated to false (should skip over entire loop)
                 self.change_jump_operand_at(
                     pos_jump_if_false,
-                    self.instructions.len().try_into().unwrap(),
+                    operand(self.instructions.len())?,
                 );
 
                 // Update jump statements for every break statement inside this loop
                 let ctx = self.loop_contexts.pop().unwrap();
                 for ip in ctx.break_instructions {
-                    self.change_jump_operand_at(ip, self.instructions.len().try_into().unwrap());
+                    self.change_jump_operand_at(ip, operand(self.instructions.len())?);
                 }
             }
             Expr::Function {
@@ -681,7 +689,7 @@ impl Compiler {
                     self.emit_opcode(OpCode::Return);
                 }
 
-                self.change_jump_operand_at(pos_jump, self.instructions.len().try_into().unwrap());
+                self.change_jump_operand_at(pos_jump, operand(self.instructions.len())?);
 
                 // Switch back to previous scope again
                 let num_locals = self.symbols.leave_context();
@@ -689,10 +697,10 @@ impl Compiler {
 
                 // Create function object and store as constant
                 let obj = Object::function(
-                    pos_start_function.try_into().unwrap(),
-                    num_locals.try_into().unwrap(),
+                    operand(pos_start_function)?,
+                    operand(num_locals)?,
                 );
-                let idx = self.add_constant(obj);
+                let idx = self.add_constant(obj)?;
                 self.emit_opcode(OpCode::Const);
                 self.emit_u16(idx);
 
@@ -704,7 +712,7 @@ impl Compiler {
                         OpCode::SetLocal
                     };
                     self.emit_opcode(opcode);
-                    self.emit_u16(symbol.index);
+                    self.emit_u16(operand(symbol.index)?);
 
                     self.emit_opcode(OpCode::Const);
                     self.emit_u16(idx);
@@ -719,13 +727,13 @@ impl Compiler {
                     if let Some(builtin) = builtins::resolve(name) {
                         self.emit_opcode(OpCode::CallBuiltin);
                         self.emit_u8(builtin as u8);
-                        self.emit_u8(arguments.len().try_into().unwrap());
+                        self.emit_u8(operand(arguments.len())?);
                         break 'compile_call;
                     }
                 }
                 self.compile_expression(left)?;
                 self.emit_opcode(OpCode::Call);
-                self.emit_u8(arguments.len().try_into().unwrap());
+                self.emit_u8(operand(arguments.len())?);
             }
 
             Expr::Array { values } => {
@@ -733,7 +741,7 @@ impl Compiler {
                     self.compile_expression(v)?;
                 }
                 self.emit_opcode(OpCode::Array);
-                self.emit_u16(values.len().try_into().unwrap());
+                self.emit_u16(operand(values.len())?);
             }
 
             Expr::Index { left, index } => {
@@ -746,19 +754,19 @@ impl Compiler {
         Ok(())
     }
 
-    fn add_constant(&mut self, obj: Object) -> u16 {
+    fn add_constant(&mut self, obj: Object) -> Result<u16, Error> {
         // re-use already defined constants
         if let Some(pos) = self
             .constants
             .iter()
             .position(|c| c.tag() == obj.tag() && c == &obj)
         {
-            return pos.try_into().unwrap();
+            return operand(pos);
         }
 
         let idx = self.constants.len();
         self.constants.push(obj);
-        idx.try_into().unwrap()
+        operand(idx)
     }
 }
 
